@@ -152,6 +152,8 @@ struct Stage {
     queries: Vec<(usize, usize)>,
     /// also read every projection AS OF the batch's snapshot and through the snapshot token
     coordinates: bool,
+    /// also issue every query with the evaluation instant spelled non-canonically
+    spellings: bool,
 }
 
 fn stages(tier: Tier) -> Vec<Stage> {
@@ -196,6 +198,78 @@ fn stages(tier: Tier) -> Vec<Stage> {
         groups: one,
         queries: all_q.clone(),
         coordinates: false,
+        spellings: false,
+    });
+
+    // evaluation-time SPELLING dimension: the instant of FOR TIME written canonically, with second
+    // precision, at +08:00, at -05:00 and with +00:00. Windows: the 7 yearly ones plus 8 with fine bounds
+    // around g3 (half a second before / after it: same second, non-zero milliseconds; 4 h before / after:
+    // inside the reach of a UTC offset).
+    let sp_lives: &[Life] = tier.pick(&[Life::Active, Life::Retracted], &LIVES);
+    let sp_modes: &[Mode] = tier.pick(&[Mode::Stated, Mode::Hypothetical], &Mode::ALL);
+    let sp_stances: &[Stance] = tier.pick(&[Stance::Support, Stance::Reject], &Stance::ALL);
+    let sp_windows: Vec<Window> = Window::ALL
+        .iter()
+        .chain(Window::FINE.iter())
+        .copied()
+        .collect();
+    let mut spelled = Vec::new();
+    for &life in sp_lives {
+        for &mode in sp_modes {
+            for &window in &sp_windows {
+                for &stance in sp_stances {
+                    for (functional, rival) in [(false, false), (true, false), (true, true)] {
+                        spelled.push(group(
+                            functional,
+                            &subject(x_spec(rival, stance, 9, mode, window), life, 'x'),
+                            &[],
+                        ));
+                    }
+                }
+            }
+        }
+    }
+    // next to a witness by the same actor / citing the same evidence: a wrongly admitted row changes a group
+    for &window in &sp_windows {
+        let x = subject(
+            x_spec(false, Stance::Support, 9, Mode::Stated, window),
+            Life::Active,
+            'x',
+        );
+        for (actor, ev, stance) in [
+            (0u8, 0u8, Stance::Support),
+            (1, 0b001, Stance::Support),
+            (1, 0, Stance::Reject),
+        ] {
+            let w = Spec {
+                rival: false,
+                actor,
+                ev,
+                stance,
+                conf: 3,
+                mode: Mode::Observed,
+                window: Window::NONE,
+            };
+            spelled.push(group(false, &x, &[Abs::Assert('y', w, None)]));
+        }
+    }
+    spelled.sort_by_key(|g| g[0].functional);
+    v.push(Stage {
+        name: format!(
+            "evaluation-time spellings (canonical / second precision / +08:00 / -05:00 / +00:00): 1 assertion over {} lifecycles x {} modes x 15 windows (7 yearly + 8 with sub-second and +-4h bounds around an evaluation instant) x {} stances x {{plain, functional own value, functional rival value}}; plus active stated X over the 15 windows next to 3 witnesses, every interleaving",
+            sp_lives.len(),
+            sp_modes.len(),
+            sp_stances.len()
+        ),
+        depth: 1,
+        groups: spelled,
+        queries: if tier == Tier::Quick {
+            EVAL_TIMES.iter().map(|t| (*t, 0usize)).collect()
+        } else {
+            mode_q.clone()
+        },
+        coordinates: false,
+        spellings: true,
     });
 
     // read-coordinate dimension on single-assertion histories: the lifecycle transitions are versions in
@@ -239,6 +313,7 @@ fn stages(tier: Tier) -> Vec<Stage> {
         groups: one_c,
         queries: EVAL_TIMES.iter().map(|t| (*t, 0usize)).collect(),
         coordinates: true,
+        spellings: false,
     });
 
     // 2 assertions: X over lifecycle x mode x window, Y a fixed always-recorded witness
@@ -328,6 +403,7 @@ fn stages(tier: Tier) -> Vec<Stage> {
         groups: two,
         queries: mode_q.clone(),
         coordinates: false,
+        spellings: false,
     });
 
     if tier == Tier::Thorough {
@@ -374,6 +450,7 @@ fn stages(tier: Tier) -> Vec<Stage> {
             groups: both,
             queries: mode_q,
             coordinates: false,
+            spellings: false,
         });
     }
     v
@@ -451,6 +528,7 @@ fn main() {
             rotate_batches: if stage.coordinates { 2 } else { 16 },
             compare_within_group: true,
             coordinates: stage.coordinates,
+            spellings: stage.spellings,
         };
         let t0 = Instant::now();
         let outcomes: Vec<Outcome> = util::par_map(
@@ -474,7 +552,9 @@ fn main() {
                     + o.restab_checks
                     + o.order_comparisons
                     + o.coordinate_projections
-                    + o.coordinate_comparisons,
+                    + o.coordinate_comparisons
+                    + o.spelling_projections
+                    + o.spelling_comparisons,
             );
             run.add("projections_vs_model", o.evaluations);
             run.add("histories_recorded", o.histories);
@@ -482,6 +562,8 @@ fn main() {
             run.add("interleaving_comparisons", o.order_comparisons);
             run.add("historical_projections_vs_model", o.coordinate_projections);
             run.add("coordinate_comparisons", o.coordinate_comparisons);
+            run.add("respelled_projections_vs_model", o.spelling_projections);
+            run.add("spelling_comparisons", o.spelling_comparisons);
             run.add("entry_point_checks", o.entry_point_checks);
             run.add("reprojection_checks", o.restab_checks);
             run.add(
@@ -532,6 +614,7 @@ fn main() {
          alone (plain, functional own value, functional rival value) and next to a witness assertion placed to expose a wrongly admitted row; every interleaving of the ASSERT / RETRACT / SUPERSEDING statements, one transaction each; \
          projected at 3 evaluation times (FOR TIME) x 6 policies (baseline .7/.3, lax .5/.1, accept-only .9, material-only .1, forecast, modes [hypothetical, stated]) [pairs: the 3 mode sets]; compared with BeliefModel (status, groups, id sets, excluded list, scores, policy named) and across interleavings. \
          read-coordinate dimension (stage 'read coordinates'): single-assertion histories in batches of 8 subjects sharing the predicate are projected at now AND at the snapshot taken right after recording (AS OF SEQ / read.snapshot_token, fresh and after later unrelated writes), at the 3 evaluation times; the lifecycle transitions are versions in the log, every read must match BeliefModel and the read at now. \
+         evaluation-time spelling dimension (stage 'evaluation-time spellings'): every query of that stage is issued with its FOR TIME instant written canonically (YYYY-MM-DDTHH:MM:SS.sssZ), with second precision, at +08:00, at -05:00 (previous calendar day) and with +00:00; BeliefModel decides windows on instants, so every spelling must match the model (incl. temporal.valid_at reported canonically) and the canonically spelled answer (status, groups, id sets, exclusion reasons, scores); windows include bounds with non-zero milliseconds in the same second as the evaluation instant and bounds 4 h before / after it. \
          distinct non-trivial = history in which some assertion is excluded at one of the queries and some assertion counts at one of them",
     );
     run.assume("validity windows and evaluation times from a 7-point yearly grid; replacement claims of superseded assertions are fixed (one expired, one live)");
